@@ -117,6 +117,10 @@ FindIdx(id)     == IF Find(id) = {} THEN 0 ELSE IndexOf(CHOOSE o \in Find(id) : 
 ByName(n, from) == LET I == {i \in from..Len(arr) : NameOf[arr[i]] = n}
                    IN IF I = {} THEN 0 ELSE CHOOSE i \in I : \A j \in I : i <= j
 KwCount(n)      == Cardinality({i \in 1..Len(arr) : NameOf[arr[i]] = n})
+(* VerifyEntity(id, name): 0 = no live instance carries id, 2 = the one that does has that entity   *)
+(* name, 1 = it has another name (the caller then looks at the subtypes)                            *)
+Verify(id, n)   == IF Find(id) = {} THEN 0
+                   ELSE IF NameOf[CHOOSE o \in Find(id) : TRUE] = n THEN 2 ELSE 1
 
 (* ------------------------------ the property ---------------------------- *)
 NoDupInArr == \A i, j \in 1..Len(arr) : i # j => arr[i] # arr[j]
